@@ -324,7 +324,10 @@ func runScenario(t *testing.T, sc *Scenario, tr *vh.Tracer) (hang bool) {
 }
 
 var scopePool = []string{"repository:r1:pull", "repository:r1:push", "repository:r1:pull,push", "repository:r1:push,pull", "repository:r1:*",
-	"repository:r2:pull", "repository:r1:pull repository:r1:pull", "repository:r2:pull,pull", "registry:catalog:*"}
+	"repository:r2:pull", "repository:r1:pull repository:r1:pull", "repository:r2:pull,pull", "registry:catalog:*",
+	// resource names may themselves contain colons (a host:port-qualified repository): the actions follow the LAST colon
+	"repository:mirror.example:5000/app:pull", "repository:mirror.example:5000/app:delete,pull", "repository:mirror.example:5000/app:*",
+	"repository:mirror.example:5000/app:push", "repository:mirror.example:5000/app:pull repository:mirror.example:5000/app:delete"}
 
 func genScenario(rng *rand.Rand, id int) Scenario {
 	sc := Scenario{ID: id, Cache: []string{"shared", "shared", "single", "none"}[rng.Intn(4)], Hosts: map[string]hostCfg{}, Seed: rng.Int63()}
